@@ -65,9 +65,9 @@ func c11GroupScenarios() []sched.Scenario {
 		}
 		genMarshal := func(sh interface{}) interface{} { return mb(sh.(*c11GroupShared).g.Generator()) }
 		scs = append(scs,
-			sched.Scenario{Name: "group/" + name + "/Marshal||Add||IsEqual", Setup: fresh, Threads: []func(interface{}) interface{}{marshal, add, isEq}},
-			sched.Scenario{Name: "group/" + name + "/MarshalCompress||Mul", Setup: fresh, Threads: []func(interface{}) interface{}{marshalC, mul}},
-			sched.Scenario{Name: "group/" + name + "/Generator.Marshal||Generator+Generator", Setup: fresh, Threads: []func(interface{}) interface{}{genMarshal, gen}})
+			sched.Scenario{Cost: 10, Name: "group/" + name + "/Marshal||Add||IsEqual", Setup: fresh, Threads: []func(interface{}) interface{}{marshal, add, isEq}},
+			sched.Scenario{Cost: 10, Name: "group/" + name + "/MarshalCompress||Mul", Setup: fresh, Threads: []func(interface{}) interface{}{marshalC, mul}},
+			sched.Scenario{Cost: 10, Name: "group/" + name + "/Generator.Marshal||Generator+Generator", Setup: fresh, Threads: []func(interface{}) interface{}{genMarshal, gen}})
 	}
 	return scs
 }
